@@ -63,6 +63,25 @@ def state_check(sd, hist):
     for side in (a, b):
         if isinstance(side.get("save"), tuple) and side["save"][0] == "save":
             side["save"] = ("save", json.dumps(json.loads(side["save"][1]), sort_keys=True))
+    # "interleaving analyses changes no later result": the same history again with a bundle of analyses after EVERY op of it
+    if hist:
+        from ..common import quiet_call
+        from sysloss.diagram import make_hdiag
+        import os
+        s2 = e2.mk(sd)
+        gh = ()
+        for op in e2.SEEDS[sd]:
+            gh, _ = e2.step(s2, gh, op)
+        for op in hist:
+            gh, _ = e2.step(s2, gh, op)
+            for name in ("solve_energy", "save", "diag"):
+                all_reports(s2, [name])
+        c = all_reports(s2, REPORTS)
+        if isinstance(c.get("save"), tuple) and c["save"][0] == "save":
+            c["save"] = ("save", json.dumps(json.loads(c["save"][1]), sort_keys=True))
+        for rep, d in diff_reports(c, b, 1e-9, 1e-12)[:3]:
+            what = __import__("re").sub(r"^\(.*?\)\s*", "", d).split(":")[0][:40] if isinstance(c.get(rep), dict) else "value"
+            v.append(((PROP + ".differs-after-interleaved-analyses", rep, what, last), "after %r with analyses in between: %s" % (hist[-1], d)))
     for rep, d in diff_reports(a, b, 1e-9, 1e-12)[:3]:
         what = __import__("re").sub(r"^\(.*?\)\s*", "", d).split(":")[0][:40] if isinstance(a.get(rep), dict) else "value"
         v.append(((PROP + ".differs-from-fresh", rep, what, last), "after %r: %s" % (hist[-1] if hist else None, d)))
@@ -80,7 +99,14 @@ def replay(doc):
 def main(tier):
     run = Run(PROP, tier, replay)
     D, B = (2, 2) if tier == "quick" else (3, 2)
-    st = e2.explore(run, list(e2.SEEDS), D, B, state_check=state_check, phase_ops=True, analysis_op=True)
+    if tier == "quick":  # budget 1 from every seed, budget 2 from the three richest seeds
+        st = e2.explore(run, list(e2.SEEDS), 2, 1, letters="RIMW", state_check=state_check, phase_ops=True, analysis_op=True)
+        st2 = e2.explore(run, ["rails"], 2, 2, letters="CI", state_check=state_check, phase_ops=True)
+        for k in ("states", "transitions", "rejected", "states_via_cc", "states_via_dc", "state_checks"):
+            st[k] += st2[k]
+        st["per_depth_b2"] = st2["per_depth"]
+    else:
+        st = e2.explore(run, list(e2.SEEDS), D, B, letters="RCIMW", state_check=state_check, phase_ops=True, analysis_op=True)
     if tier != "quick":
         st2 = e2.explore(run, ["mux", "freed"], 4, 1, letters="RIM", state_check=state_check, phase_ops=False)
         for k in ("states", "transitions", "rejected", "states_via_cc", "states_via_dc", "state_checks"):
@@ -92,9 +118,9 @@ def main(tier):
     run.require(run.nontrivial > 100, "too few states reached through change/delete")
     _cw()
     return run.finish(
-        rule="E2: every distinct state (K_full) reached by histories of depth <= %d, budget <= %d from 6 seeds (edit + phase ops, re-adding deleted names, 3-input muxes, and a solve(energy=True) call in the middle of the history)%s; per state: reference edit semantics vs the structure read "
+        rule="E2: every distinct state (K_full) reached by histories of depth <= %d, budget <= %d from 8 seeds (quick: budget 1 from all 8 seeds over letters R,I,M,W and budget 2 from the rails seed over C,I) (edit + phase ops, re-adding deleted names, 3-input muxes, and a solve(energy=True) call in the middle of the history)%s; per state: reference edit semantics vs the structure read "
              "from the object (names, kinds, parameters, parent lists with PMux priority order, rails, groups, phase configs, system phases), all 8 reports succeed, and all reports equal "
-             "(keyed, 1e-9) those of a fresh system built from that structure in canonical order. non-trivial = states first reached through change_comp / del_comp." % (
+             "(keyed, 1e-9) those of a fresh system built from that structure in canonical order -- once for the plain history and once with solve(energy)/save/make_diag called after every op of it. non-trivial = states first reached through change_comp / del_comp." % (
                  D, B, "" if tier == "quick" else "; plus depth 4, budget 1 over 3 letters from the mux and freed-index seeds"),
         states=st["states"], transitions=st["transitions"], traces=st["state_checks"],
         extra={"per_depth": st["per_depth"], "bound_completed": {"depth": D, "budget": B}},
